@@ -119,10 +119,54 @@ def push_pull_state(prog, kind, sq=None, pc=None):
     return Enum(ty, v, (square(sq), piece(prog, pc)))
 
 
+PLAY_PHASE_FIELDS = {'previous_piece_boards_this_move': 'std::vec::Vec<engine::PieceBoard>', 'push_pull_state': 'engine::PushPullState',
+                     'initial_hash_of_move': 'zobrist::Zobrist', 'hash_history': 'linked_list::List<zobrist::Zobrist>',
+                     'piece_trapped_this_turn': 'bool'}
+_CTOR_INTERP = {}
+
+
+def play_phase_by_layout(prog):
+    """True when PlayPhase still has exactly the field layout this analysis builds its symbolic states from"""
+    a = prog.adts.get('engine::PlayPhase')
+    if a is None:
+        return True
+    got = {f['name']: f['ty'] for f in a['variants'][0]['fields']}
+    return got == PLAY_PHASE_FIELDS
+
+
+def play_phase_via_constructor(prog, prev, pps, trapped, h0, hist):
+    """The representation of PlayPhase differs from the layout known here: the symbolic state is the value the crate's own
+    public constructor PlayPhase::new builds from (turn-start hash, history, earlier boards, status, captured flag) - the
+    constructor's MIR is interpreted on those arguments.  Arguments are matched by type."""
+    from .mai import Undecided, State
+    fn = prog.one('PlayPhase::new')
+    if fn is None:
+        raise Undecided('PlayPhase has an unknown field layout and no constructor PlayPhase::new')
+    f = prog.fns[fn]
+    want = {'zobrist::Zobrist': opaque_hash(h0), 'linked_list::List<zobrist::Zobrist>': history_token(hist),
+            'std::vec::Vec<engine::PieceBoard>': prev, 'engine::PushPullState': pps, 'bool': trapped}
+    tys = [(l.get('ty') if isinstance(l, dict) else l) for l in f['locals'][1:1 + f['argc']]]
+    if sorted(tys) != sorted(want):
+        raise Undecided('PlayPhase::new takes %s; this analysis knows how to supply %s' % (tys, sorted(want)))
+    I = _CTOR_INTERP.get(id(prog))
+    if I is None:
+        I = _CTOR_INTERP[id(prog)] = (prog, make_interp(prog, fuel=2000000))
+    I = I[1]
+    I.panics.clear()
+    I.asserts_bad.clear()
+    r, _ = I.call_fn(fn, [want[t] for t in tys], State({}))
+    if r is None or I.panics or I.asserts_bad:
+        raise Undecided('PlayPhase::new does not return normally on the arguments of a symbolic state: %s'
+                        % (list(I.panics) + list(I.asserts_bad)))
+    return r
+
+
 def play_phase(prog, step, pps, trapped, h0='h0', hist='hist', boards_prefix='prev'):
     prev = Seq([('elem', piece_board(prog, '%s%d.' % (boards_prefix, i))) for i in range(step)])
     if isinstance(trapped, bool):
         trapped = TRUE if trapped else FALSE
+    if not play_phase_by_layout(prog):
+        return play_phase_via_constructor(prog, prev, pps, trapped, h0, hist)
     return struct_from(prog, 'engine::PlayPhase',
                        previous_piece_boards_this_move=prev,
                        push_pull_state=pps,
